@@ -6,12 +6,12 @@ import (
 	"bytes"
 	"encoding/binary"
 	"encoding/hex"
-	"encoding/json"
 	"errors"
 	"io"
 	"os"
 	"sort"
 	"strconv"
+	"time"
 
 	"github.com/nspcc-dev/neofs-node/pkg/local_object_storage/shard"
 	"github.com/nspcc-dev/neofs-node/pkg/local_object_storage/shard/mode"
@@ -66,8 +66,8 @@ func (r *chunkReader) Read(p []byte) (int, error) {
 
 type oracleEntry struct {
 	B string `json:"b"` // body (hex)
-	U bool   `json:"u"` // object.Unmarshal accepts it
-	S int    `json:"s"` // Put class: 0 stored, 1 ignored (expired / already removed), 2 failed
+	U int    `json:"u"` // class of the error object.Unmarshal returns (0 = accepted)
+	S int    `json:"s"` // Put: 0 stored, 1 ignored (expired / already removed), 2+k failed with error class k
 }
 
 type c46Case struct {
@@ -81,7 +81,8 @@ type c46Case struct {
 	Dump      string        `json:"dump"`
 	Kind      int           `json:"kind"`    // 0 clean, 1 bodies corrupted (framing intact), 2 bad magic, 3 framing damaged
 	Recs      []string      `json:"recs"`    // kind 0/1: record bodies of the stream, in order
-	Stream    string        `json:"stream"`  // "" = same as dump
+	Stream    string        `json:"stream"`  // stream given to Restore (hex), empty when same
+	Same      bool          `json:"same"`    // stream is the dump itself
 	Sizes     []int         `json:"sizes"`
 	Eager     bool          `json:"eager"`
 	Ign       bool          `json:"ign"`
@@ -115,7 +116,7 @@ func putClass(err error) int {
 	case shard.IsErrObjectExpired(err), errors.Is(err, apistatus.ErrObjectAlreadyRemoved):
 		return 1
 	default:
-		return 2
+		return 2 + errClass46(err)
 	}
 }
 
@@ -217,10 +218,13 @@ func c46One(r *rng, id int, forceKind int) c46Case {
 	c := c46Case{ID: id, WC: r.coin(1, 2), WCB: r.coin(1, 3), Ign: r.coin(1, 2), Eager: r.coin(1, 4)}
 	c.Objs, c.Perm, c.Recs, c.Sizes, c.Oracle, c.Stored = []string{}, []int{}, []string{}, []int{}, []oracleEntry{}, []string{}
 
+	tt := time.Now()
+	lap := func(w string) { if os.Getenv("VERIF_LAP") != "" { println(w, time.Since(tt).Milliseconds()); tt = time.Now() } }
 	// ---- source shard
 	dirA := tempDir()
 	defer os.RemoveAll(dirA)
 	a := mustShard(dirA, envOpts{wc: c.WC})
+	lap("openA")
 	nobj := r.intn(7)
 	if r.coin(1, 12) {
 		nobj = 0
@@ -244,6 +248,7 @@ func c46One(r *rng, id int, forceKind int) c46Case {
 			}
 		}
 	}
+	lap("putsA")
 	if err := a.sh.SetMode(mode.ReadOnly); err != nil {
 		fatal("c46: set RO: %v", err)
 	}
@@ -252,7 +257,9 @@ func c46One(r *rng, id int, forceKind int) c46Case {
 	c.DumpCount, c.DumpErr = n, err != nil
 	dump := append([]byte(nil), buf.Bytes()...)
 	c.Dump = hex.EncodeToString(dump)
+	lap("dumpA")
 	_ = a.sh.Close()
+	lap("closeA")
 	bodies := flatBodies(dump)
 	for _, b := range bodies {
 		if i, ok := byBytes[string(b)]; ok {
@@ -341,7 +348,8 @@ func c46One(r *rng, id int, forceKind int) c46Case {
 	c.Kind = kind
 	if !bytes.Equal(stream, dump) {
 		c.Stream = hex.EncodeToString(stream)
-	} else if kind != 0 {
+	} else {
+		c.Same = true
 		c.Kind = 0
 	}
 	if c.Kind <= 1 {
@@ -366,20 +374,25 @@ func c46One(r *rng, id int, forceKind int) c46Case {
 		seen[string(b)] = true
 		e := oracleEntry{B: hex.EncodeToString(b)}
 		obj := new(object.Object)
-		if obj.Unmarshal(b) == nil {
-			e.U = true
+		if uerr := obj.Unmarshal(b); uerr == nil {
 			e.S = putClass(sc.sh.Put(obj, nil))
+		} else {
+			e.U = errClass46(uerr)
 		}
 		c.Oracle = append(c.Oracle, e)
 	}
+	lap("oracle")
 	_ = sc.sh.Close()
+	lap("closeC")
 
 	// ---- restore into an empty shard
 	dirB := tempDir()
 	defer os.RemoveAll(dirB)
 	b := mustShard(dirB, envOpts{wc: c.WCB})
+	lap("openB")
 	cnt, fl, rerr := b.sh.Restore(newChunkReader(stream, c.Sizes, c.Eager), c.Ign)
 	c.Count, c.Fail, c.Err = cnt, fl, errClass46(rerr)
+	lap("restore")
 	addrs, err := b.sh.List()
 	if err != nil {
 		fatal("c46: list: %v", err)
@@ -392,7 +405,9 @@ func c46One(r *rng, id int, forceKind int) c46Case {
 		c.Stored = append(c.Stored, hex.EncodeToString(bin))
 	}
 	sort.Strings(c.Stored)
+	lap("list")
 	_ = b.sh.Close()
+	lap("closeB")
 	return c
 }
 
@@ -410,9 +425,19 @@ func c46Main(args []string) {
 		n, _ = strconv.Atoi(args[0])
 	}
 	seed := seedFromEnv()
+	budget := 45 * time.Second
+	if thorough() {
+		budget = 12 * time.Minute
+	}
+	t0 := time.Now()
 	for i := 0; i < n; i++ {
+		if time.Since(t0) > budget {
+			// a broken tree can make Restore allocate gigabytes per record (garbage size
+			// fields after lost framing); report what was produced so far
+			emit(map[string]any{"truncated": true, "produced": i})
+			break
+		}
 		r := newRng(seed ^ uint64(i)*0x100000001B3)
 		emit(c46One(r, i, -1))
 	}
-	_ = json.Valid
 }
